@@ -1898,7 +1898,8 @@ sexp sexp_compare (sexp ctx, sexp a, sexp b) {
       r = sexp_type_exception(ctx, NULL, SEXP_NUMBER, a);
       break;
     case SEXP_NUM_FIX_FIX:
-      r = sexp_make_fixnum(sexp_unbox_fixnum(a) - sexp_unbox_fixnum(b));
+      r = sexp_make_fixnum(sexp_unbox_fixnum(a) < sexp_unbox_fixnum(b) ? -1
+                           : sexp_unbox_fixnum(a) > sexp_unbox_fixnum(b) ? 1 : 0);
       break;
     case SEXP_NUM_FIX_FLO:
       if (isinf(sexp_flonum_value(b))) {
